@@ -370,3 +370,19 @@ def run(ctx):
                     ok = True
         ok2 = any(A.access_path(og.of_operand(t["args"][0])) == ("P1", "reads") for b, t in hc.calls() if A.cname(t).startswith("std::sync::Mutex") and A.cname(t).endswith("::lock"))
         ctx.ob("R-C07.6", hc, "own-reads-vs-other-writes", ok and ok2, "has_conflict compares self.reads with other.conflict_keys" if ok and ok2 else "has_conflict does not compare self.reads against other.conflict_keys")
+
+    # ---- R-C07.8 the single-operation READ helpers of the optimistic tx keyspace are transactions too ("including the
+    # single-operation helpers on its keyspaces"): each reads through a read view (db.read_tx()), never through the plain
+    # keyspace's latest-state reads (SeqNo::MAX looks into a commit that is still being applied: get(first) can return
+    # generation g and a LATER get(last) generation g-1 — no serial order consistent with real time produces that)
+    from . import C05
+    helpers = [f for fid, f in sorted(F.fns.items()) if fid.startswith("tx::optimistic::keyspace::OptimisticTxKeyspace::") and f.kind != "closure"
+               and fid.rsplit("::", 1)[-1] in C05.KS_READS and not fid.endswith("::approximate_len")]  # approximate by contract
+    ctx.floor("R-C07.8", "single-operation read helpers of OptimisticTxKeyspace", helpers, 5)
+    for fn in helpers:
+        bad = [(b, A.cname(t)) for b, t in fn.calls() if A.cname(t).startswith("keyspace::Keyspace::") and A.cname(t).rsplit("::", 1)[-1] in C05.KS_READS]
+        via = [b for b, t in fn.calls() if A.cname(t).endswith("OptimisticTxDatabase::read_tx") or A.cname(t).endswith("OptimisticTxDatabase::write_tx")]
+        ok = not bad and bool(via)
+        ctx.ob("R-C07.8", fn, "single-op-read-goes-through-a-view", ok,
+               "reads through db.read_tx()" if ok else "reads the plain keyspace's latest state (%s) instead of a read view: it can observe a commit that is only partly applied" % (bad[0][1] if bad else "no read_tx"),
+               fn.loc(bad[0][0]) if bad else "")
